@@ -29,6 +29,16 @@ Theorem C17_mqtt_roundtrip : forall (pfx l : pstr) (m : msg),
     (canonical l -> l = line_of m ++ [nl]).
 Proof. exact roundtrip. Qed.
 
+(* the same in the property's words: every canonical command (integer header, ack 0/1,
+   payload the codec can carry), every prefix *)
+Theorem C17_mqtt_roundtrip_canonical : forall (pfx : pstr) (m : msg),
+  wire_ok (m_payload m) = true -> (m_ack m = 0 \/ m_ack m = 1)%Z ->
+  encode m = line_of m ++ [nl] /\
+  to_mqtt (encode m) = Ok (topic_of m, m_payload m, m_ack m) /\
+  from_mqtt pfx (pfx ++ topic_of m) (m_payload m) (m_ack m) = Ok (Some (line_of m)) /\
+  ((0 < m_ack m)%Z <-> m_ack m = 1%Z).
+Proof. exact roundtrip_canonical. Qed.
+
 (* delivery with an arbitrary qos and payload (and an arbitrary integer ack in the published
    command): the received command has ack = 1 if qos > 0 else 0 and the delivered payload *)
 Theorem C17_mqtt_roundtrip_any_qos : forall (pfx l : pstr) (m : msg) (p : pstr) (q : Z),
@@ -195,6 +205,7 @@ Proof. vm_compute. reflexivity. Qed.
 
 Print Assumptions C17_publish_shape.
 Print Assumptions C17_mqtt_roundtrip.
+Print Assumptions C17_mqtt_roundtrip_canonical.
 Print Assumptions C17_mqtt_roundtrip_any_qos.
 Print Assumptions C17_mqtt_accept_iff.
 Print Assumptions C17_mqtt_accept_value.
